@@ -2,7 +2,8 @@
 """Fail-closed translator of the REMAINING readers of a ruleset from Python to Gallina.
 
     /venv/bin/python harness/translate_loader2.py            print the generated text
-    /venv/bin/python harness/translate_loader2.py --write    write coq/gen/Loader2_gen.v
+    /venv/bin/python harness/translate_loader2.py --write    write coq/gen/Loader2_gen.v (the OMEN readers) and
+                                                             coq/gen/Loader2Grammar_gen.v (the grammar_io modules)
 
 Sources (SPECS):
   lib_guesser/omen/input_file_io.py  _load_config, _load_alphabet, _load_ngrams, _load_length, load_rules
@@ -87,7 +88,8 @@ if HERE not in sys.path:
 import common  # noqa: E402
 from translate_loader import TranslateError, _close, _paren, _comment, cstr, cint  # noqa: E402
 
-OUT = os.path.join("gen", "Loader2_gen.v")
+OUT = os.path.join("gen", "Loader2_gen.v")                 # the OMEN readers (guesser and scorer)
+OUT_GRAMMAR = os.path.join("gen", "Loader2Grammar_gen.v")  # the grammar_io modules (guesser and scorer)
 
 OMEN_IN = "lib_guesser/omen/input_file_io.py"
 OMEN_SC = "lib_scorer/omen_scorer.py"
@@ -110,6 +112,10 @@ SPECS = [
     dict(source=G_IO, py="_load_terminals", coq="py_load_terminals", nparams=5, out=[1]),
     dict(source=G_IO, py="load_grammar", coq="py_load_grammar", nparams=6, out=[]),
 ]
+
+for _s in SPECS:
+    _s["group"] = "omen" if _s["source"] in (OMEN_IN, OMEN_SC) else "grammar"
+GROUPS = {"omen": OUT, "grammar": OUT_GRAMMAR}
 
 # functions translated elsewhere (harness/translate_loader.py), reached through the world
 EXTERN = [
@@ -1340,11 +1346,13 @@ def _module(repo, rel, cache):
     return cache[rel]
 
 
-def render(repo=None):
-    """-> text of gen/Loader2_gen.v for the sources of the current working tree"""
+def render(repo=None, group="omen"):
+    """-> text of the generated file of one group for the sources of the current working tree"""
     repo = repo or common.REPO
     cache, parts = {}, []
     for spec in SPECS:
+        if spec["group"] != group:
+            continue
         mod = _module(repo, spec["source"], cache)
         if "cls" in spec:
             fn = mod["classes"].get(spec["cls"], {}).get(spec["py"])
@@ -1359,17 +1367,18 @@ def render(repo=None):
             if any(isinstance(n, ast.Name) and n.id == m for n in ast.walk(fn)) and m not in mod["imported"]:
                 raise TranslateError("%s: %s uses %s, which the module does not import plainly" % (mod["path"], spec["py"], m))
         parts.append(FunctionTranslator(mod["path"], fn, spec, mod).translate())
-    for ext in EXTERN:
-        mod = _module(repo, ext["source"], cache)
-        fn = mod["defs"].get(ext["py"])
-        if not isinstance(fn, ast.FunctionDef) or len(fn.args.args) != ext["nparams"]:
-            raise TranslateError("%s: def %s with %d parameters not found" % (mod["path"], ext["py"], ext["nparams"]))
+    if group == "grammar":
+        for ext in EXTERN:
+            mod = _module(repo, ext["source"], cache)
+            fn = mod["defs"].get(ext["py"])
+            if not isinstance(fn, ast.FunctionDef) or len(fn.args.args) != ext["nparams"]:
+                raise TranslateError("%s: def %s with %d parameters not found" % (mod["path"], ext["py"], ext["nparams"]))
     head = (
         "(* GENERATED by harness/translate_loader2.py from the Python source of the current\n"
         "   working tree on every run of a check.  Do not edit.\n"
         "   Each definition is the line-by-line image of one Python function in the subset\n"
         "   documented in the translator; the numbers in the comments are source lines.\n"
-        "   theories/Loader2GenProofs.v proves these definitions equal to the hand-written\n"
+        "   theories/%s proves these definitions equal to the hand-written\n"
         "   models of theories/TextFile.v and theories/Loader2Model.v. *)\n"
         "From Coq Require Import List ZArith NArith Bool.\n"
         "From Pcfg Require Import TextFile LoaderRt Loader2Rt.\n"
@@ -1379,7 +1388,7 @@ def render(repo=None):
         "   of its sections; W : world fo C S is what the interpreter, the file system and the\n"
         "   readers of gen/Loader_gen.v decide (Loader2Rt.v) *)\n"
         "Context (fo : fops) {C S : Type}.\n"
-        "Notation val := (pyval (F fo) C S).\n")
+        "Notation val := (pyval (F fo) C S).\n") % ("Loader2GenProofs.v" if group == "omen" else "Loader2GrammarGenProofs.v")
     return head + "\n" + "\n".join(parts) + "\nEnd Loader2_gen.\n"
 
 
@@ -1390,18 +1399,27 @@ def failure_text(err):
 
 
 def write(repo=None):
+    """writes both generated files; a group whose translation fails gets a file that does not
+    compile (the other group is still written), then the first error is raised"""
     import extract_consts as X
-    path = os.path.join(common.COQ, OUT)
-    try:
-        text = render(repo)
-    except Exception as e:
-        X.write(path, failure_text("%s: %s" % (type(e).__name__, e)))
-        raise
-    return X.write(path, text)
+    changed, first = False, None
+    for group, rel in GROUPS.items():
+        path = os.path.join(common.COQ, rel)
+        try:
+            text = render(repo, group)
+        except Exception as e:
+            X.write(path, failure_text("%s: %s" % (type(e).__name__, e)))
+            first = first or e
+            continue
+        changed |= bool(X.write(path, text))
+    if first is not None:
+        raise first
+    return changed
 
 
 if __name__ == "__main__":
     if "--write" in sys.argv[1:]:
-        print("written" if write() else "unchanged", os.path.join(common.COQ, OUT))
+        print("written" if write() else "unchanged", ", ".join(os.path.join(common.COQ, r) for r in GROUPS.values()))
     else:
-        sys.stdout.write(render())
+        for g in GROUPS:
+            sys.stdout.write(render(group=g))
